@@ -107,6 +107,9 @@ pub fn check(c: &Case) -> Result<Vec<&'static str>, Failure> {
     if line_text.chars().count() > 120 {
         classes.push("long_line");
     }
+    if c.text.starts_with(verif_core::inputs::LEADING_ODDITIES) {
+        classes.push("odd_first_character");
+    }
     Ok(classes)
 }
 
@@ -139,6 +142,10 @@ pub fn build(bytes: &[u8]) -> Case {
                 text.push('\n')
             }
         }
+    }
+    if src.chance(24) {
+        // an unusual very first character (byte order mark, zero width space, NUL ...)
+        text.insert(0, *src.choose(verif_core::inputs::LEADING_ODDITIES));
     }
     // boundary positions, biased to interesting ones
     let bounds: Vec<usize> = (0..=text.len()).filter(|i| text.is_char_boundary(*i)).collect();
